@@ -31,6 +31,51 @@ CHECKS = {
          'from arbitrary corresponding states, then API edits/simulations on one block and re-check of the other.',
          'Trusted: Simulation semantics (C01), z3, stubs; fingerprint definition. Bounded: designs, 5 edit scripts, K=3.',
          'symbolic trace comparison before/after (SMT) + object-graph fingerprints'),
+
+ 'C06': (MC, '4 C06', 'Every operator/helper of the grid is elaborated with the real API and simulated symbolically; len(result) is a fact, the '
+         'value is compared with integer arithmetic by the solver for ALL operand values (exact equality, which also proves the declared '
+         'width holds the full value; modulo 2^w where the documentation says wrap).',
+         'Trusted: Simulation semantics (C01), integer oracles, z3. Bounded: width pairs, slices for w<=5, * and signed_mult <= 6x6 quick / 8x8.',
+         'symbolic simulation of operator circuits + SMT comparison with integer arithmetic'),
+ 'C07': (MC, '4 C07', 'Every with/otherwise forest of the bounded family is elaborated with the real conditional_assignment; if accepted, the '
+         'real Simulation runs symbolically (predicates, data, addresses, state as variables) and is compared with a tree interpreter: at '
+         'most one active assigning branch, its value wins, defaults/keep/no-write otherwise; programs whose branches can overlap (solver) '
+         'must have been rejected with PyrtlError.',
+         'Trusted: the tree interpreter (oracle), Simulation semantics (C01), z3. Bounded: forests <= 4 nodes exhaustively (+5-node shapes, '
+         'multi-target samples), K=2.',
+         'symbolic simulation of elaborated condition trees + SMT comparison with a tree interpreter'),
+ 'C10': (FE, '4 C10', 'Part 1: real sanity_check_net on nets whose bitwidths are symbolic (1..4095): raises iff the documented predicate is false '
+         '(solver, all widths). Part 2: real Block.__iter__ with pop() tie-breaks as symbolic ranks, every distinguishable order explored. '
+         'Part 3: every (fault kind, site) injected into well-formed designs must be rejected by the three simulator constructors.',
+         'Trusted: documented predicate transcription, fault injectors. Bounded: ops x arity 0..4, designs <= 9 nets / <= 3000 orders, 13 fault kinds.',
+         'symbolic execution of sanity_check_net over all bitwidths (SMT) + schedule exploration with symbolic ranks + fault enumeration'),
+ 'C13': (MC, '4 C13', 'Each adder/multiplier generator is elaborated for every width/parameter of the grid and simulated symbolically; the result is '
+         'compared with integer +/* for ALL operand values; sequential multipliers by BMC from arbitrary register state.',
+         'Trusted: Simulation semantics (C01), z3. Bounded: adders to 16 (thorough 64) bits, multipliers to 6x6 quick / 8x8 thorough.',
+         'symbolic simulation of generated arithmetic circuits + SMT equivalence with integer arithmetic (BMC for sequential ones)'),
+ 'C14': (MC, '4 C14', 'Each helper is elaborated for every shape/slice/pattern/schema of the grid and simulated symbolically; outputs compared with '
+         'bit-list models for ALL data/select values.',
+         'Trusted: bit-list oracles, Simulation semantics (C01), z3. Bounded: select widths <= 3, patterns <= 5 chars, 7 schemas.',
+         'symbolic simulation of helper circuits + SMT comparison with bit-level models'),
+ 'C16': (MC, '4 C16', 'The scalar helpers run directly on symbolic integers (engine S); per explored path the accept/reject outcome and the '
+         'result are compared with the arithmetic definitions for ALL 26-bit values; explicit bitwidths enumerated, absent bitwidth inferred '
+         'symbolically.',
+         'Trusted: stubs bin/hex/str/len/int in pyrtl.helperfuncs (canonical numerals), z3. Bounded: |value| < 2^25, bitwidths <= 24, patterns <= 6.',
+         'symbolic execution of the conversion helpers on z3 integer proxies, per-path SMT obligations'),
+ 'C17': (MC, '4 C17', 'TimingAnalysis runs on symbolic (integer) gate delays: timing_map/max_length equal the max over enumerated register-free paths '
+         'for ALL delays, critical_path explored per region; paths() compared with an SMT characterisation of simple net paths; max_freq on an '
+         'IEEE double proxy.',
+         'Trusted: path-enumeration oracle, z3 (LIA, FP). Bounded: designs <= 14 nets (critical_path <= 7).',
+         'symbolic execution of TimingAnalysis with delays as solver variables + SMT path characterisation'),
+ 'C18': (MC, '4 C18', 'AES: ROM tables == GF(2^8) definitions for all addresses, per-stage lemmas, one inductive step of both state machines against '
+         'FIPS-197 rounds (ROMs as shared uninterpreted functions), full single-cycle circuits in the thorough tier. PRNGs: BMC from load with '
+         'symbolic seeds and arbitrary pre-load state, cut points at adders/state registers, vs xoroshiro128+/Trivium/LFSR references.',
+         'Trusted: vf/refs.py references (validated on the repo test vectors), UF abstraction justified by the table lemma, z3.',
+         'symbolic simulation + SMT with uninterpreted ROM functions, compositional cut-point lemmas, BMC / inductive steps'),
+ 'C19': (MC, '4 C19', 'Every Matrix operation of the grid is elaborated on matrices of Input slices and simulated symbolically; one obligation per '
+         'result element against nested-list integer arithmetic (mod 2^bits, exact where the declared width must hold the value).',
+         'Trusted: nested-list oracle, Simulation semantics (C01), z3. Bounded: shapes <= 3x3 (thorough 4x4), element widths <= 8, products <= 3 bits.',
+         'symbolic simulation of Matrix circuits + per-element SMT comparison with integer-matrix arithmetic'),
 }
 PENDING = {}
 
